@@ -1911,10 +1911,17 @@ func generateHistory(seed int64, index int, prof *profile, nOps int, path string
 	if prof.modsvcBind && g.hp.modsvc {
 		mp := hx(modSvcProvider)
 		price := []string{"1stake", "2stake", "5stake", "9stake", "30stake"}[g.r.Intn(5)]
+		// in half of the histories the module's binding has promotions: the price then depends on the block time and
+		// on how often this very consumer has been served
+		promT, promV := "-", "-"
+		if g.pct(50) {
+			g.refreshView()
+			promT, promV = g.promotions(false)
+		}
 		for _, line := range []string{
 			fmt.Sprintf("fund acct=%s amt=%d", mp, ownerFunds),
 			fmt.Sprintf("define name=%s author=%s schema=ok", reservedSvc, hx(ownerAddrs[0])),
-			fmt.Sprintf("modbind svc=%s prov=%s owner=%s dep=%d price=%s promT=- promV=- qos=1", reservedSvc, mp, mp, ownerFunds/2, price),
+			fmt.Sprintf("modbind svc=%s prov=%s owner=%s dep=%d price=%s promT=%s promV=%s qos=1", reservedSvc, mp, mp, ownerFunds/2, price, promT, promV),
 		} {
 			if err := step(line); err != nil {
 				return nil, err
